@@ -120,6 +120,15 @@ one_set(struct Camera* cam, struct SimulatedCamera* self, uint8_t binning)
     VASSERT(sh.strides.channels == 1 && sh.strides.width == 1 && sh.strides.height == (int64_t)ew && sh.strides.planes == (int64_t)ew * eh,
             "C17: strides do not match the reported dimensions");
     VASSERT(sh.type == asked.pixel_type, "C17: reported sample type differs from the one set");
+#if MODE == 3
+    {   /* re-configuration step: only the buffer-size obligations (the rest is MODE 1) */
+        size_t fw_ = (size_t)b * ew, fh_ = (size_t)b * eh;
+        size_t e_ = (((fw_ * fh_ * bpt(asked.pixel_type)) + 31) >> 5) << 5;
+        VASSERT(size_of(self->im.render_data) >= e_, "C17: render_data smaller than the full-resolution image the streamer renders into it (after re-configuration)");
+        VASSERT(size_of(self->im.frame_data) >= e_, "C17: frame_data smaller than the full-resolution render (after re-configuration)");
+        return;
+    }
+#endif
     struct CameraProperties got;
     VASSERT(simcam_get(cam, &got) == Device_Ok, "get failed");
     VASSERT(got.shape.x == ew && got.shape.y == eh, "C17: get does not return the shape in effect");
@@ -159,7 +168,7 @@ main(void)
      * binning, any clamped shape, any type) whose buffers satisfy the size invariant, then one set */
     {
         uint8_t pk = ND(uint8_t);
-        VASSUME(pk <= 7);
+        VASSUME(pk <= 3); /* the property's binning domain {1,2,4,8} */
         uint32_t pb = 1u << pk;
         uint32_t pw = ND(uint32_t), ph = ND(uint32_t);
         VASSUME(pw >= 1 && ph >= 1 && pw <= 8192u / pb && ph <= 8192u / pb);
@@ -182,7 +191,11 @@ main(void)
 #if MODE == 1 || MODE == 3
     for (int i = 0; i < NSET; ++i) {
         uint8_t k = ND(uint8_t);
+#if MODE == 3
+        VASSUME(k >= 1 && k <= 4); /* {1,2,4,8} */
+#else
         VASSUME(k <= 8);
+#endif
         /* concrete binning per branch: 0 (meaning 1), 1, 2, 4, ..., 128 */
         switch (k) {
             case 0: one_set(cam, self, 0); break;
